@@ -35,6 +35,30 @@ def random_tree(rnd, t, size):
     return nodes[0]
 
 
+ODD_CHARS = ["\u00b2", "\u2460", "\u00bd", "\u4e94", "\u0663", "\uff13", "\U0001d7ce", "\u2167", "\u3007", "\u2212", "\uff0e", "\uff1a", "\uff0d",
+             "\u00a0", "\u2028", "\x1f", "\x00", "_", "+", " ", "\u0301", "\U0001f600", "\u0e51", "\u1369", "\u2070", "\u2080"]
+TEMPLATES = ["2020", "12", "-12.5", "1e5", "12:30:45", "12:30:45.123", "2020-02-29", "http://h.example/p", "180", "0"]
+
+
+def perturbed():
+    """Canonical typed forms with one position replaced by, or one position preceded by, a character that Python's
+    str predicates and parsers disagree about (isdigit-but-not-decimal, numeric-only, non-ASCII decimal digits,
+    look-alike signs and separators, controls): the strings on which a hand-rolled pre-check and the parser it
+    guards can part ways."""
+    out = []
+    for tpl in TEMPLATES:
+        for i in range(len(tpl) + 1):
+            for ch in ODD_CHARS:
+                if i < len(tpl):
+                    out.append(tpl[:i] + ch + tpl[i + 1:])
+                out.append(tpl[:i] + ch + tpl[i:])
+        out.append(tpl * 2)
+    for ch in ODD_CHARS:
+        for k in (1, 2, 4, 8, 10):
+            out.append(ch * k)
+    return sorted(set(out))
+
+
 def w_sweep(elements):
     """(e) systematic sweep: every known element x hostile contents x hostile attribute values,
     as a single node and with one (valid-named) child, so every content/attribute error branch
@@ -45,15 +69,20 @@ def w_sweep(elements):
     rnd = random.Random(17)
     pool = list(valtrace.UNICODE_POOL) + [None] + [c02.gen(c, "", rnd) for c in c02.GEN if c != "SURROGATE"] \
         + [c02.gen("INT", b, rnd) for b in c02.INT_BUCKET] + [c02.gen("DEC", b, rnd) for b in c02.DEC_BUCKET]
-    for el in elements:
+    odd = perturbed()
+    for ei, el in enumerate(elements):
         unit = t.node_map[el]
         spec = t.rules.get(unit)
         attrs = list(spec[0]) if spec else []
+        kinds = (spec[2].get("content_rules") or []) if spec and len(spec) > 2 and isinstance(spec[2], dict) else []
+        typed = any(k not in ("emptyContent", "nonEmptyContent", "strContent", "anyContent") for k in kinds)
+        # every perturbed string on the elements with a typed content rule, a rotating tenth of them elsewhere
+        extra = odd if typed else odd[(hash(el) if False else sum(map(ord, el))) % 10::10]
         root = Node("zzSweepRoot")
-        for i, content in enumerate(pool):
+        for i, content in enumerate(pool + extra):
             n = Node(el)
             n.content = content
-            if attrs:
+            if attrs and i < len(pool):
                 a = attrs[i % len(attrs)]
                 n.add_attribute(a, pool[(i * 7 + 3) % len(pool)])
             if i % 3 == 0 and spec:
@@ -63,7 +92,7 @@ def w_sweep(elements):
                     n.add_child(Node("zzForeignChild" if nm.startswith("~") else nm))
             root.add_child(n)
         ev = valtrace.observe_tree(root)
-        ev["desc"] = {"base": "sweep", "element": el, "contents": len(pool)}
+        ev["desc"] = {"base": "sweep", "element": el, "contents": len(pool) + len(extra)}
         evs.append(ev)
         Node.store.clear()
     return evs
